@@ -20,7 +20,7 @@ ASSUMPTIONS = [
     "readings); the suggestion is wrong only if it is rejected in both readings while another position is accepted",
     "allowed-child oracle: the name labels a transition on some path from the start state to an accepting state",
 ]
-REQUIRED = ["every_count_cases", "candidates_with_a_prefix", "parents_with_more_than_60_children", "candidates_with_a_past", "stateful_queries", "index_cases", "restorable_cases", "foreign_refused", "allowed_true", "allowed_false", "sorted_cases"]
+REQUIRED = ["parents_whose_children_carry_tails", "parents_with_more_than_1000_children", "index_queries_on_parents_with_foreign_children", "every_count_cases", "candidates_with_a_prefix", "parents_with_more_than_60_children", "candidates_with_a_past", "stateful_queries", "index_cases", "restorable_cases", "foreign_refused", "allowed_true", "allowed_false", "sorted_cases"]
 EXHAUSTIVE = {"quick": False, "thorough": False}
 
 
@@ -65,6 +65,15 @@ def judge(ctx, rule_name, r, m, rank, seq, cand, element):
     parent = Node(element)
     for c in seq:
         parent.add_child(Node(c))
+    if seq and (len(seq) + len(cand) + len(rule_name)) % 3 == 0:
+        # text after elements (a stray ';' of a hand-edited file, the line break and indentation of a pretty-printed one, a sentence
+        # that belongs to nobody) and text in them: the rule orders elements
+        for k_, ch in enumerate(parent.children):
+            if (k_ + len(cand)) % 2 == 0:
+                ch.tail = (";", "\n      ", " and then some text ", ">", "\xa0")[(k_ + len(seq)) % 5]
+            if k_ % 3 == 0:
+                ch.content = ("text", " ", None)[k_ % 3]
+        ctx.count("parents_whose_children_carry_tails")
     # the candidate is not always a brand-new node: it may have been created for, taken from, or copied from another parent (whose
     # children differ) - the answer is about the parent that was passed
     past = (len(seq) + len(cand)) % 4
@@ -222,6 +231,15 @@ def run_rule(ctx, rule_name):
                         break
                     judge(ctx, rule_name, mrule.Rule(rule_name), m, rank, seq, a, element)
                     ctx.count("every_count_cases")
+                # ... and a thousand and more of them (a methods element with 1500 steps, a dataset with 1100 creators): candidates
+                # that go before, into and after the long run
+                for count in (1023, 1024, 1025, 1500, 2047, 2048, 2049, 3100):
+                    seq = tuple(rich[:i]) + (a,) * count + tuple(rich[i:])
+                    if m.verdict(seq) != relang.ACCEPT:
+                        break
+                    for cand in dict.fromkeys([a] + list(rich[i:i + 3]) + list(rich[max(0, i - 1):i]) + [names[-1], names[0]]):
+                        judge(ctx, rule_name, mrule.Rule(rule_name), m, rank, seq, cand, element)
+                        ctx.count("parents_with_more_than_1000_children")
                 done = True
     reps = 30 if ctx.tier == "quick" else 600
     for _ in range(reps if names else 0):
@@ -332,6 +350,20 @@ def run_rule(ctx, rule_name):
                                                                    f"that was queried before, {want2!r} on a fresh parent with the same children",
                               {"rule": rule_name, "seq": list(cur), "candidate": cand2, "stateful": True})
                 break
+        emlkit.discard(parent)
+    # a parent holding left-over children the rule does not know is asked about (the answer is nobody's business here - the statement
+    # is about parents over the rule's names - but asking must not teach the rule anything)
+    for foreign in (["verifForeignElement"], ["Title", ""], [x for x in near if x not in names][:6]):
+        parent = Node(element)
+        for c in names[:2] + foreign + names[-1:]:
+            parent.add_child(Node(c))
+        for cand in names[:1] + names[-1:]:
+            for rr in (r, mrule.Rule(rule_name)):
+                try:
+                    rr.child_insert_index(parent, Node(cand))
+                except Exception:
+                    pass
+                ctx.count("index_queries_on_parents_with_foreign_children")
         emlkit.discard(parent)
     # the allowed-child query once more, after all the index queries (which must not have taught the rule any new names)
     for a in ["verifForeignElement", "Title", ""] + [x for x in near if x not in names][:6]:
